@@ -11,6 +11,7 @@ TECH = {
  "A": "contract-based deductive verification: exact-algebra tracing of the real functions, identities discharged by a normaliser over an algebraic/transcendental generator tower",
  "Z": "contract-based deductive verification: symbolic execution of the real ASTs into z3 verification conditions (class invariants, loop invariants, callee contracts)",
  "N": "contract-based deductive verification: operator-algebra tracing of the real functions, identities discharged by a non-commutative normaliser with assumed contracts for linear-algebra externals",
+ "B": "bounded native stand-ins (labelled bounded, never counted as proved) for the clauses no contract on this repository can decide",
 }
 checks = []
 engines_used = {}
@@ -33,6 +34,7 @@ ENG = {
  "A": ("pycv/algebra", "exact-algebra tracing of loader-recompiled /repo modules on Laurent polynomials over Q in a generator tower; in-house normaliser; refutations by 50-digit mpmath, replayed natively"),
  "Z": ("pycv/wp", "AST -> z3 symbolic executor over the real class/function ASTs (path enumeration, property/method inlining, uninterpreted functions for un-modelled computations, callee contracts, loop invariants)"),
  "N": ("pycv/opalg", "non-commutative *-algebra tracing of the real DFT++ operator code with rewrite rules from assumed contracts"),
+ "B": ("contracts", "bounded native runs of the real code (separate interpreters, poisoned allocations, forced iteration orders); bounded stand-ins and replays only"),
 }
 m = {
  "version": 1,
